@@ -4,11 +4,14 @@
 
   * Every clause gets a unique identity when it is added; identities are never reused.
   * asserta/assertz add at the front / at the end.  A clause term whose body has n top-level
-    alternatives counts as n clauses (shared vocabulary with the model: `clausePI`, `compile`).
+    alternatives counts as n clauses, one per alternative, which are added as a BLOCK IN THE ORDER
+    OF THE ALTERNATIVES — by asserta/1 as by assertz/1 (shared vocabulary with the model:
+    `clausePI`, `compile`, `altsOf`).
   * A call or a retract that is started holds the clauses (identities) ALIVE AT THAT MOMENT, in
     their order at that moment.  Nothing that happens later changes what it holds.
-  * Backtracking into a call: the next held clause whose head unifies — whether or not it has
-    been retracted in the meantime.
+  * The answers of a call are, for each held clause IN THAT ORDER, the answers of that clause
+    (head unification, then the solutions of its own alternative, in order) — whether or not the
+    clause has been retracted in the meantime.
   * Backtracking into a retract: the next held clause that unifies AND IS STILL IN THE DATABASE;
     exactly that identity is removed.
   * abolish removes the procedure; modifying a static procedure is a permission error; an
@@ -22,7 +25,7 @@ namespace PrologVerif.LUV
 open PrologVerif PrologVerif.DB
 
 inductive Iter where
-  | call (goal : Term) (alive : List Stored)
+  | call (goal : Term) (alive : List Stored) (pending : List Term)
   | retract (pat : Term) (pi : PI) (alive : List Stored)
   | closed
   deriving DecidableEq
@@ -70,7 +73,7 @@ def insert (st : State) (c : Term) (front : Bool) : State × Out :=
       if isStatic st.procs pi then (st, .error (permissionErr "modify" "static_procedure" pi.term))
       else
         let old := clausesOf st.procs pi
-        let new := stamp st.fresh raws
+        let new := stamp st.fresh ((altsOf c).map fun alt => (c, alt))
         ({ st with procs := st.procs.set pi ⟨true, if front then new ++ old else old ++ new⟩
                    fresh := st.fresh + raws.length }, .ok)
 
@@ -101,7 +104,7 @@ def startCall (st : State) (goal : Term) : State × Out :=
   | .ok pi =>
     match st.procs.get pi with
     | none => (st, .error (existenceErr "procedure" pi.term))
-    | some p => opened st (.call goal p.clauses)
+    | some p => opened st (.call goal p.clauses [])
 
 def startRetract (st : State) (pat : Term) : State × Out :=
   match piArg (headOf pat) with
@@ -110,14 +113,15 @@ def startRetract (st : State) (pat : Term) : State × Out :=
     if isStatic st.procs pi then (st, .error (permissionErr "modify" "static_procedure" pi.term))
     else opened st (.retract pat pi (clausesOf st.procs pi))
 
-/-- next solution of a call: first held clause whose (renamed) head unifies with the goal -/
+/-- next solution of a call when the clause in hand has no more answers: go on with the first
+    held clause that has one -/
 def redoCall (st : State) (h : Nat) (goal : Term) : List Stored → State × Out
-  | [] => ({ st with iters := st.iters.set h (.call goal []) }, .no)
+  | [] => ({ st with iters := st.iters.set h (.call goal [] []) }, .no)
   | c :: alive =>
     let st' := { st with nextVar := st.nextVar + maxVar c.raw }
-    match unify fuelU [] goal (shift st.nextVar (headOf c.raw)) with
-    | some σ => ({ st' with iters := st.iters.set h (.call goal alive) }, .answer (resolve fuelU σ goal))
-    | none => redoCall st' h goal alive
+    match clauseAnswers st.nextVar goal c with
+    | a :: more => ({ st' with iters := st.iters.set h (.call goal alive more) }, .answer a)
+    | [] => redoCall st' h goal alive
 
 /-- next solution of a retract: first held clause that (renamed apart) unifies and is still present -/
 def redoRetract (st : State) (h : Nat) (pat : Term) (pi : PI) : List Stored → State × Out
@@ -140,7 +144,8 @@ def step (st : State) : Op → State × Out
   | .openRetract p => startRetract st p
   | .next h =>
     match st.iters[h]? with
-    | some (.call goal alive) => redoCall st h goal alive
+    | some (.call goal alive (a :: more)) => ({ st with iters := st.iters.set h (.call goal alive more) }, .answer a)
+    | some (.call goal alive []) => redoCall st h goal alive
     | some (.retract pat pi alive) => redoRetract st h pat pi alive
     | some .closed => (st, .no)
     | none => (st, .badHandle)
